@@ -1,2 +1,90 @@
-(* C06 - placeholder while the proofs are being written *)
-From P9 Require Import Model.Serve.
+(* C06 - the server answers each request exactly once with its own tag and result.
+   Model: Model/Serve.v (conn.serve / read / write and the handler goroutines of serveconn.go as ONE
+   transition system; every scheduling and environment choice is an event).  [run R init evs = Some (s, tr)]:
+   the event list evs is a possible execution of the (repaired) code, s the state reached, tr everything
+   that happened (ORecv: the loop received request rid; ODispatch: Handler.Handle invoked; OFin: Handle
+   returned; OTake: frame passed to conn.Write; OFrame: that write succeeded; OCancel; OReturn; OStop).
+   Only statements, each closed by [exact lemma]. *)
+From Coq Require Import List NArith Bool.
+From stdpp Require Import gmap.
+From P9 Require Import Model.Serve Proofs.ServeProofs Proofs.ServeProofs2 Proofs.ServeProofs3 Proofs.ServeProofs4 Proofs.ServeWitness.
+Import ListNotations.
+Open Scope N_scope.
+
+(* 1. for EVERY event list: a request is received at most once, handed to the handler at most once, and a
+      dispatch carries exactly the message of the request with that id *)
+Theorem C06_dispatch_once : forall evs s tr, run R init evs = Some (s, tr) ->
+  NoDup (recv_ids tr) /\ NoDup (disp_ids tr) /\
+  forall rid m, In (ODispatch rid m) tr -> exists tag, In (ORecv rid tag (KReq m)) tr.
+Proof. exact ev_dispatch_once. Qed.
+Print Assumptions C06_dispatch_once.
+
+(*    ... and a request whose tag is not outstanding IS dispatched, with its message, when the loop receives it *)
+Theorem C06_dispatch_on_arrival : forall s rid tag m,
+  pc s = Main -> rd s = RHold rid tag (KReq m) -> tags s !! tag = None ->
+  exists s' o, step R s EArrive = Some (s', o) /\ In (ODispatch rid m) o /\ tags s' !! tag = Some rid /\
+               exists h, hs s' !! rid = Some h /\ h_tag h = tag /\ h_st h = HRun.
+Proof. exact dispatch_on_arrival. Qed.
+Print Assumptions C06_dispatch_on_arrival.
+
+(* 2. every frame handed to the conn is [own]: it carries the tag of the request it answers and is the
+      duplicate-tag error for that request, a flush reply for that (flush) request, or reply_of the result
+      which the handler dispatched for THAT request returned *)
+Theorem C06_reply_own : forall evs s tr, run R init evs = Some (s, tr) ->
+  forall f, In (OTake f) tr -> own tr f.
+Proof. exact ev_reply_own. Qed.
+Print Assumptions C06_reply_own.
+
+(*    at most one frame per request is ever handed to the conn; a handler returns at most one result;
+      a frame on the wire is a frame that was handed to the conn *)
+Theorem C06_reply_at_most_once : forall evs s tr, run R init evs = Some (s, tr) -> NoDup (hand_ids tr).
+Proof. exact ev_reply_at_most_once. Qed.
+Print Assumptions C06_reply_at_most_once.
+
+Theorem C06_result_unique : forall evs s tr, run R init evs = Some (s, tr) ->
+  forall rid r1 r2, In (OFin rid r1) tr -> In (OFin rid r2) tr -> r1 = r2.
+Proof. exact ev_result_unique. Qed.
+Print Assumptions C06_result_unique.
+
+Theorem C06_frame_was_taken : forall evs s tr, run R init evs = Some (s, tr) ->
+  forall f, In (OFrame f) tr -> In (OTake f) tr.
+Proof. exact ev_frame_was_taken. Qed.
+Print Assumptions C06_frame_was_taken.
+
+(* 3. in every fault-free quiescent state (loop idle, writer idle, nothing unread, conn open, context live,
+      every handler returned and processed) every request sent has its own reply on the wire - or was
+      flushed and the flush acknowledged *)
+Theorem C06_reply_exists : forall evs s tr, run R init evs = Some (s, tr) -> settled s ->
+  forall rid, rid < nsent s ->
+    (exists f, In (OFrame f) tr /\ f_rid f = rid /\ own tr f) \/ flush_acked tr rid.
+Proof. exact ev_reply_exists. Qed.
+Print Assumptions C06_reply_exists.
+
+(* 4. a request reusing an outstanding tag: Rerror "duplicate tag" with its tag is queued, it is not
+      dispatched (the only output is the receipt), tag table, handlers and writer are untouched *)
+Theorem C06_duptag : forall s rid tag k r0,
+  pc s = Main -> rd s = RHold rid tag k -> tags s !! tag = Some r0 ->
+  exists s', step R s EArrive = Some (s', [ORecv rid tag k]) /\
+             pc s' = SendImm {| f_rid := rid; f_tag := tag; f_pl := PErr err_duptag |} /\
+             tags s' = tags s /\ hs s' = hs s /\ wr s' = wr s.
+Proof. exact duptag. Qed.
+Print Assumptions C06_duptag.
+
+(* 5. newErrorFcall: an ordinary error becomes Rerror with its Error() text, a MessageRerror value passes
+      through, a message is sent as it is *)
+Theorem C06_error_text : (forall e, reply_of (RErr e) = PErr e) /\ (forall e, reply_of (RErrMsg e) = PErr e) /\
+                         (forall m, reply_of (RMsg m) = PMsg m).
+Proof. exact error_text. Qed.
+Print Assumptions C06_error_text.
+
+(* non-vacuity: a run that ends settled with the request's reply on the wire; a state in which a
+   duplicate arrives while the first request is running *)
+Example C06_example_settled : exists s tr, run R init run_one = Some (s, tr) /\ settled s /\ nsent s = 1 /\
+  In (OFrame {| f_rid := 0; f_tag := 5; f_pl := PMsg [121; 65] |}) tr /\ In (ODispatch 0 m1) tr.
+Proof. exact ex_run_one. Qed.
+Print Assumptions C06_example_settled.
+
+Example C06_example_dup : exists s tr, run R init run_dup = Some (s, tr) /\ pc s = Main /\
+  rd s = RHold 1 5 (KReq m2) /\ tags s !! 5 = Some 0.
+Proof. exact ex_run_dup. Qed.
+Print Assumptions C06_example_dup.
